@@ -171,6 +171,12 @@ def main() -> int:
         return finish(prop, meta, tier, seed, results, det_res, t0, t_warm, jobs, a.no_evidence)
     finally:
         shutil.rmtree(tmp, ignore_errors=True)
+        # scratch disks of workers that died without cleaning up
+        import glob
+
+        for _s, _o, p in locals().get("procs", []) + ([(0, 0, locals()["det"])] if "det" in locals() else []):
+            for d in glob.glob(f"/dev/shm/verif-{p.pid}-*") + glob.glob(os.path.join(tempfile.gettempdir(), f"verif-{p.pid}-*")):
+                shutil.rmtree(d, ignore_errors=True)
 
 
 def finish_crashes(prop, crashes) -> int:
